@@ -23,7 +23,7 @@ func genCLI(t *rapid.T) CLICase {
 		switch {
 		case k < 4:
 			c.Ops = append(c.Ops, Op{Kind: "add", V: rapid.SampledFrom(pool).Draw(t, "v"),
-				Ck: rapid.IntRange(0, 4).Draw(t, "ck") == 0, Fail: rapid.IntRange(0, 3).Draw(t, "fail") == 0})
+				Ck: rapid.IntRange(0, 4).Draw(t, "ck") == 0, Fail: rapid.IntRange(0, 3).Draw(t, "fail") == 0, Empty: rapid.IntRange(0, 5).Draw(t, "empty") == 0})
 		case k < 8:
 			op := Op{Kind: "apply", N: rapid.SampledFrom([]int{0, 0, 1, 2}).Draw(t, "n"), Order: rapid.IntRange(0, 2).Draw(t, "order")}
 			op.Via = rapid.SampledFrom([]int{0, 0, 1, 2}).Draw(t, "via")
@@ -102,6 +102,14 @@ func runCLI(t *testing.T, col *ev.Collector) {
 		for _, dirty := range []bool{false, true} {
 			fixed = append(fixed, CLICase{Dirty: dirty, Ops: []Op{{Kind: "add", V: "30"}, {Kind: "add", V: "60"}, {Kind: "apply", Baseline: "30", Via: via}, {Kind: "apply", Via: via}}})
 		}
+	}
+	// a file that holds comments only, as the first, a middle and the last file
+	for _, ev := range []string{"30", "50", "60"} {
+		ops := []Op{}
+		for _, v := range []string{"30", "50", "60"} {
+			ops = append(ops, Op{Kind: "add", V: v, Empty: v == ev})
+		}
+		fixed = append(fixed, CLICase{Ops: append(ops, Op{Kind: "apply"}, Op{Kind: "apply"})})
 	}
 	for _, c := range fixed {
 		if !ev.Each(col, "cli-fixed-histories", c, check, knownCLI) {
